@@ -584,6 +584,9 @@ def timevalue(value):
     fields = value.lower().replace(':', ' ').split()
     colons = value.count(':')
     have_secs = True
+    if len(fields) < colons + 1:
+        # '1:' or '::', a number is missing
+        return VALUE_ERROR
     if colons == 1:
         if '.' in fields[1][:-1]:
             # a decimal is seconds
